@@ -294,6 +294,11 @@ class Operation(NamedTuple):
             else:
                 exist_value = setting.default
             new_value = exist_value - {value}
+            if exist_setting is None and new_value == exist_value:
+                # Nothing to remove and no entry at this scope: do not
+                # create an (empty) entry that would mask the value
+                # defined at a less specific scope.
+                return storage
             storage = self._set_value(storage, new_value, source=source)
 
         return storage
